@@ -143,11 +143,18 @@ func genC04(dir, tier string, seed int64) {
 		if r.Intn(3) != 0 {
 			attrs = append(attrs, aFloat("beta", float32(r.Intn(6)-2)))
 		}
+		// a transposition flag is "non-zero": 1 mostly, sometimes 2, -1, 7 or 2^32
+		flag := func(t int) int64 {
+			if t == 1 && r.Intn(5) == 0 {
+				return []int64{2, -1, 7, 1 << 32}[r.Intn(4)]
+			}
+			return int64(t)
+		}
 		if tA == 1 || r.Intn(4) == 0 {
-			attrs = append(attrs, aInt("transA", int64(tA)))
+			attrs = append(attrs, aInt("transA", flag(tA)))
 		}
 		if tB == 1 || r.Intn(4) == 0 {
-			attrs = append(attrs, aInt("transB", int64(tB)))
+			attrs = append(attrs, aInt("transB", flag(tB)))
 		}
 		sa, sb := []int{M, K}, []int{K, N}
 		if tA == 1 {
